@@ -29,6 +29,32 @@ CHECKS = {
    text="Every field at its boundary values (min-1..max+1, sentinels, MinInt/MaxInt, NaN/Inf/-0), all (field,value) pairs, on 3 pictures: never panics, error XOR conformant decodable file. Every documented sentinel/inert-field equivalence is checked byte-for-byte under every single-field context; nil = DefaultOptions(); boundary images (nil args, empty/inverted bounds, 16383/16384 px, failing writer).",
    note="Validator and independent decoder as in C02; 3-way value interactions not covered.", ref="3/C20"),
 }
+
+_MORE = {
+ "C08": dict(cat="model_checking", tech="explicit-state breadth-first search over the real AnimEncoder (histories replayed on fresh objects, reflection state hash), reference player as oracle",
+   text="Every AddFrame history up to depth 3 (thorough 4; a 7-picture core alphabet one level deeper) over a 22-operation alphabet of (picture, duration) on an 8x8 canvas x 8 Kmin/Kmax/loop configurations. After every history the encoder is closed and the bytes are played back by this package's reader+player and by an independent stack (own RIFF parser, vendored decoders, reference compositor); both must show the run-length-merged inputs with the same display times, total duration, loop count and canvas size.",
+   note="Bounded depth and picture alphabet; canvas fixed at 8x8; model = plain list of (canvas, duration). States are histories merged by private-state hash; every transition is executed on the implementation.", ref="3/C08"),
+ "C09": dict(cat="model_checking", tech="explicit-state breadth-first search over the real AnimDecoder with state merging by reflection hash; exhaustive operand sweep of the blend function",
+   text="Transition = NextFrame on one more frame from a 252-frame alphabet (rectangle inside/partly outside/outside/larger than the 4x4 canvas x blend x dispose x HasAlpha x 7 fills); depth 3 quick, up to 6 thorough, states merged by a hash of the decoder's complete private state plus the model. Each step is checked against a compositor written from the specification (no key-frame shortcut); every history also checks Reset-replay and that earlier snapshots are untouched. alphaBlendNRGBA is swept over all alpha pairs x channel grid (thorough: all 2^32 operand tuples).",
+   note="Blend results accept libwebp's documented integer formula or the specification's real formula within rounding; merging skips the frame list pointer and canonicalises pos (argument in c09.go).", ref="3/C09"),
+ "C14": dict(cat="model_checking", tech="explicit-state breadth-first search over the real Muxer (73-call alphabet, depth 4/5) with a plain-struct model, three parsers as oracle",
+   text="Every Muxer call sequence up to depth 4 (thorough 5) over AddFrame (6 real bitstreams incl. ALPH-prefixed with both alpha parities x 5 option sets), SetFrameDisposeMode/SetFrameDuration at valid and out-of-range indices, metadata setters/AddChunk x {nil, empty, odd, even}, loop count, background, canvas size; states merged by private-state hash. After every history Assemble is either an error or a structurally valid file that riffwalk, mux.Demuxer and container.Parser all read back as the model.",
+   note="One open known finding (explicit canvas different from a still image, pinned by the repository's own test); frames are real bitstreams (junk is outside the property).", ref="3/C14"),
+ "C16": dict(cat="exploration", tech="exhaustive enumeration of a container-layout alphabet (hand-assembled files) plus package outputs; cross-view agreement oracle",
+   text="Every hand-assembled container over {VP8, VP8L, VP8L+alpha} x {simple, VP8X} x ALPH {absent, empty, two parities} x unknown chunk position x metadata position x feature flags {exact, each bit over-/under-stated}, plus encoder, animation-encoder and muxer outputs: the agreements the property states between Decode, DecodeConfig, GetFeatures, image.Decode(Config), the demuxer, the animation reader and a neutral parser.",
+   note="Layout alphabet is finite and small (280 files); pictures inside are fixed.", ref="3/C16"),
+ "C18": dict(cat="model_checking", tech="explicit-state breadth-first search over the real AnimEncoder in lossy/mixed modes; alpha-channel oracle through two players",
+   text="C08's search with Lossless x AllowMixed x Quality x key-frame configurations (8) over pictures with binary, graded and translucent alpha, depth 3 (thorough 4; core alphabet one deeper): the alpha channel of every played-back canvas, by this package's player and by the reference stack, equals the source alpha exactly.",
+   note="Colour is not compared in lossy modes; bounded depth/alphabet as C08.", ref="3/C18"),
+
+ "C10": dict(cat="model_checking", tech="stateless model checking of the implementation under a controlled scheduler (delay-/preemption-bounded DFS over all schedules), plus a separate free-running race-detector pass",
+   text="The instrumenter replaces sync, sync/atomic, go statements, channels and sync.Pool in the current tree by shims that give a cooperative scheduler every synchronisation operation (and the entry of the pipeline's context read/publish functions) as a scheduling point. For 12 scenarios on the real code (row-pipelined lossy encoder for 1/2/3-macroblock-wide pictures, alpha, lossless encode/decode fork-join sections, parallel frame decoding over channels, concurrent public calls with and without pool sharing, two threads on one image) every schedule with at most 2 non-default scheduling decisions (thorough: preemption bound 2 with free switches at blocking points, or delay bound 3) is executed; bytes/pixels must equal the non-preempted schedule (concurrent calls: some sequential order), with no deadlock, lost wake-up, livelock or panic.",
+   note="Sequential consistency at scheduling points; plain data races are only sampled by the free-running -race pass (GOMAXPROCS 4 and 16), which is labelled sampling in the evidence. Worker vector fixed per scenario. A completed sync.Once is not a scheduling point.", ref="3/C10"),
+ "C11": dict(cat="model_checking", tech="exhaustive history enumeration (all ordered pairs/triples of API calls) x explorable sync.Pool (every assignment of pooled objects to Get calls with <=2 reuse events + all-reuse), fresh-process results as oracle",
+   text="Every ordered pair (thorough: triples over a 12-call core) of a 24-call alphabet chosen to collide (equal/greater/smaller macroblock counts, options that must be reset, methods, alpha, dithering, source types, both codecs, decodes, animation); inside each history every Pool.Get is a choice point (which pooled object, or none). Each result must equal the same call's result as the first call of a fresh process (computed in child processes) and earlier results must stay unchanged.",
+   note="vsync.Pool replaces sync.Pool (the runtime's per-P caches and GC clearing are owned by the harness); worker count pinned to 1; histories deeper than 2 (3) calls and >2 reuse events only through the all-reuse schedule.", ref="3/C11"),
+}
+CHECKS.update(_MORE)
 NA = {}
 ALL = ["C%02d" % i for i in range(1, 21)]
 
